@@ -115,6 +115,35 @@ impl Regex {
     // actually used. - it seems vastly complicated.
 }
 
+/// Verification hooks (only with `--cfg regexml_verif`): the same regex compiled
+/// without operation optimisation and with every search shortcut switched off.
+#[cfg(regexml_verif)]
+impl Regex {
+    fn new_unoptimized(re: &str, flags: &str, language: Language) -> Result<Self, Error> {
+        let re_flags = ReFlags::new(flags, language)?;
+        let pattern = re.chars().collect();
+        let mut re_compiler = ReCompiler::new(pattern, re_flags);
+        re_compiler.no_optimize = true;
+        let re_program = re_compiler.compile()?;
+        let mut matcher = ReMatcher::new(&re_program, "");
+        let matches_empty_string = matcher.is_match();
+        Ok(Self {
+            re_program,
+            matches_empty_string,
+        })
+    }
+
+    #[doc(hidden)]
+    pub fn xpath_unoptimized(re: &str, flags: &str) -> Result<Self, Error> {
+        Self::new_unoptimized(re, flags, Language::XPath)
+    }
+
+    #[doc(hidden)]
+    pub fn xsd_unoptimized(re: &str, flags: &str) -> Result<Self, Error> {
+        Self::new_unoptimized(re, flags, Language::XSD)
+    }
+}
+
 #[derive(Debug)]
 pub struct TokenIter<'a> {
     matcher: ReMatcher<'a>,
